@@ -102,6 +102,14 @@ func TestPropScanStorage(t *testing.T) {
 			reg := newRegistry(t, sb)
 			c := newChecker(t, sb)
 			arg := genAbsPath(t, sb)
+			if rapid.IntRange(0, 3).Draw(t, "relative") == 0 {
+				// relative scan roots, with and without parent references
+				arg = rapid.SampledFrom([]string{
+					"../" + sb.rootName + "-other", "..", "../..", "a/../../" + sb.rootName + "2", "./../" + sb.rootName + "-other/", "..//" + sb.rootName + "2",
+					"../" + sb.rootName, "a", "./a", "a/..", sb.rootName + "-other", "../" + sb.rootName + "/a",
+				}).Draw(t, "relroot")
+				stats.Class("scanstorage_relative_root")
+			}
 			where := c.scanOp(reg, arg)
 			shown := strings.ReplaceAll(arg, sb.top, "<top>")
 			sb.nameClasses("scanstorage", shown, where)
